@@ -417,6 +417,14 @@ namespace adept {
 	// gradient or Hessian for efficiency
 	new_x = x;
 	new_x(ifree) += sub_dx;
+	// Rounding can carry the shortened step slightly beyond the
+	// bound it was scaled to reach...
+	new_x = max(min_x, min(new_x, max_x));
+	if (bound_type != 0) {
+	  // ...or leave the variable that meets its bound marginally
+	  // inside: place it exactly on the bound
+	  new_x(ifree(ibound)) = bound_type > 0 ? max_x(ifree(ibound)) : min_x(ifree(ibound));
+	}
 	new_cost = optimizable.calc_cost_function(new_x);
 	state_up_to_date = -1;
 	++n_samples_;
@@ -451,10 +459,15 @@ namespace adept {
 	  x = new_x;
 	  cost_function_ = new_cost;
 	  n_iterations_++;
-	  if (frac < 1.0) {
+	  if (bound_type != 0) {
 	    // Found a new bound
 	    bound_status(ifree(ibound)) = bound_type;
 	  }
+	  // ...and any other variable that reached its bound in the
+	  // same step (the full step can land on a bound exactly, or
+	  // after rounding, without being shortened)
+	  bound_status.where(x >= max_x) =  1;
+	  bound_status.where(x <= min_x) = -1;
 	  // Reduce damping for next iteration
 	  if (damping > levenberg_damping_min_) {
 	    damping /= levenberg_damping_divider_;
